@@ -34,6 +34,10 @@ CHECKS = {
    "Same transitions as C01. After every single operation: every non-root node has minKVs..maxKVs keys, root non-empty unless the tree is empty, all leaves at one depth, keys strictly increasing in order, child count n+1 or 0, parent links correct, Len = number of stored keys = model size, vacated key/value/child slots hold zero values (unreachability of removed data), depth <= 1+floor(log_(minKVs+1)((n+1)/2)), and Get/Contains use at most maxKVs (15 at fan-out 16) comparisons per level. Seeds at fan-out 16 include fills to 15/16/17/127/128/129/136/137/255/256 keys (ascending, descending, saw-tooth, checked after each Put) and trees drained to minimal leaves so that single deletes force steal-left, steal-right, merges, cascades and root collapse; a table of structural events exercised is part of the evidence.",
    "The read-only hook container/tree/verif_export.go is trusted to copy the private structure faithfully. 'Can be garbage collected' is decided as: not referenced from the live structure (vacated slots zeroed, detached nodes unreachable).",
    "DESIGN.md §4 C03"),
+ "C10": ("gomc", "stateless model checking of the real stream.Pipe code (source-transformed onto a controlled scheduler): depth-first enumeration of all schedules, select-arm and rendez-vous choices within an iterated preemption bound",
+   "The current sources of stream (and everything it uses) are mechanically rewritten so that every channel operation, select, go statement, sync/atomic/context/time call runs on a deterministic cooperative runtime; the explorer then enumerates every execution of 33 closed scenarios (buffer 0/1/2; one or two senders using Send or TrySend; Close(nil)/Close(err) from a sender or a third thread; receiver reading to the end plus two more calls or closing early; context cancellation) with at most 2-3 preemptions (thorough 3-4), including both outcomes whenever several select arms are ready. Oracle on the call/return log: only sent values, at most once, per-sender order; every value acknowledged before Close was called is received before End/err; End/err sticky once no Send is in flight; documented error values; TrySend never parks; no deadlock (a call blocked forever shows as one).",
+   "Code between two synchronisation operations is an atomic step (extra scheduling points are inserted after close/unlock/atomic writes/cancel to expose publish-before-write orders); memory-model effects below sequential consistency are out of scope. The runtime's channel/select/sync semantics are pinned by mc/mc_test.go. Bounded: <=3 threads besides the receiver, <=3 values, preemption bound as stated in the evidence.",
+   "DESIGN.md §4 C10"),
 }
 props = [json.loads(l) for l in open(os.path.join(ROOT, "properties.jsonl"))]
 hook_commits = subprocess.run(["git","-C","/repo","log","--format=%H %s","--grep=^verif hook"],capture_output=True,text=True).stdout.strip().splitlines()
